@@ -59,6 +59,9 @@ def access_obligations(s: Struct, inv):
                 and nows(st["params"][-1]["ty"]) == nows(f.ty.setter_ty())
             obs.append((f"{base}/with-present", okw, None if okw else f"with_{f.name} missing or wrong signature: {w}"))
             obs.append((f"{base}/set-present", oks, None if oks else f"set_{f.name} missing or wrong signature: {st}"))
+            if s.builder_expected():
+                okb = f"with_{f.name}" in partial_with
+                obs.append((f"{base}/builder-step-present", okb, None if okb else f"the writable field {f.name} has no builder step (no impl of the builder type offers with_{f.name})"))
         else:
             obs.append((f"{base}/with-absent", w is None, None if w is None else f"with_{f.name} is emitted for a field without write access"))
             obs.append((f"{base}/set-absent", st is None, None if st is None else f"set_{f.name} is emitted for a field without write access"))
